@@ -130,6 +130,7 @@ var reservedNames = map[string]any{
 	"not_eq":                   nil,
 	"nullptr":                  nil,
 	"operator":                 nil,
+	"other":                    nil,
 	"or":                       nil,
 	"or_eq":                    nil,
 	"override":                 nil,
